@@ -307,9 +307,18 @@ func (w *World) k1Possible(m *RepoModel, d string) bool {
 // depth) and through the referrers answers of present subjects (unlisted = artifacts known to be missing from
 // their subject's answer).
 func (w *World) Orphans(m *RepoModel, unlisted map[string]bool) map[string]bool {
+	return w.OrphansX(m, unlisted, nil)
+}
+
+// OrphansX is Orphans in the state in which the manifests in gone have no entry any more (a collection pass that
+// removes a parent as garbage takes away what derived its adopted children in the same step).
+func (w *World) OrphansX(m *RepoModel, unlisted, gone map[string]bool) map[string]bool {
 	reach := map[string]bool{}
 	var q []string
 	for d := range m.Mans {
+		if gone[d] {
+			continue
+		}
 		if (!m.Adopted[d] || m.Tagged(d)) && m.Stored[d] != nil {
 			reach[d] = true
 			q = append(q, d)
@@ -329,7 +338,7 @@ func (w *World) Orphans(m *RepoModel, unlisted map[string]bool) map[string]bool 
 			}
 		}
 		for _, c := range next {
-			if !reach[c] && m.Mans[c] != nil && m.Stored[c] != nil {
+			if !reach[c] && !gone[c] && m.Mans[c] != nil && m.Stored[c] != nil {
 				reach[c] = true
 				q = append(q, c)
 			}
@@ -337,7 +346,7 @@ func (w *World) Orphans(m *RepoModel, unlisted map[string]bool) map[string]bool 
 	}
 	out := map[string]bool{}
 	for d := range m.Mans {
-		if m.Adopted[d] && !reach[d] {
+		if m.Adopted[d] && !reach[d] && !gone[d] {
 			out[d] = true
 		}
 	}
